@@ -1293,4 +1293,46 @@ theorem pbatch_vecs (vp : Path) (ops : List POp) (S S' : PStore) (cs : List VCha
         exact ih S1 cs2 _ (pstep_vecs vp S S1 o c T hT hs) hb i
 
 
+
+section
+variable {D : Type} [LT D] [DecidableRel (α := D) (· < ·)]
+
+/-- (used by C10_shard_step and by C03) -/
+theorem shard_step_aux (cfg : Cfg) (hR : 1 ≤ cfg.degreeBound) (ds : Dists D) (ord : List Id) (g g' : Graph)
+    (vp : Path) (ops : List POp) (S S' : PStore) (cs : List VChange) (hS : S.keys.Nodup)
+    (hWF : WF cfg.degreeBound g (fieldIds vp S)) (hb : pbatch vp ops S = .ok (S', cs))
+    (h : apply cfg ds ord g (cs.map VChange.toChange) = .ok g') :
+    WF cfg.degreeBound g' (fieldIds vp S') := by
+  have hk := pbatch_keys vp ops S S' cs hS hb
+  have hA := pbatch_agree vp ops S S' cs _ (agree_fieldIds vp S hS) hb
+  exact WF_congr _ g' _ _ (fieldIds_nodup vp S' hk) (fun i => by rw [hA.2 i, mem_fieldIds vp S' hk i])
+    (C10_step_aux cfg hR ds ord g g' _ _ hWF h)
+
+theorem shard_history_from_aux (cfg : Cfg) (hR : 1 ≤ cfg.degreeBound) (vp : Path) (steps : List (SStep D))
+    (S : PStore) (g : Graph) (hS : S.keys.Nodup) (hWF : WF cfg.degreeBound g (fieldIds vp S)) :
+    (shardRun cfg vp steps (S, g)).1.keys.Nodup ∧
+    WF cfg.degreeBound (shardRun cfg vp steps (S, g)).2 (fieldIds vp (shardRun cfg vp steps (S, g)).1) := by
+  induction steps generalizing S g with
+  | nil => exact ⟨hS, hWF⟩
+  | cons st rest ih =>
+    unfold shardRun
+    split
+    · exact ih S g hS hWF
+    · rename_i S' cs hb
+      split
+      · exact ih S g hS hWF
+      · rename_i g' hg'
+        exact ih S' g' (pbatch_keys vp st.ops S S' cs hS hb)
+          (shard_step_aux cfg hR st.ds st.ord g g' vp st.ops S S' cs hS hWF hb hg')
+
+theorem shard_history_aux (cfg : Cfg) (hR : 1 ≤ cfg.degreeBound) (vp : Path) (steps : List (SStep D)) :
+    (shardRun cfg vp steps ([], Graph.init)).1.keys.Nodup ∧
+    WF cfg.degreeBound (shardRun cfg vp steps ([], Graph.init)).2
+      (fieldIds vp (shardRun cfg vp steps ([], Graph.init)).1) := by
+  refine shard_history_from_aux cfg hR vp steps [] Graph.init (by simp [PStore.keys]) ?_
+  unfold WF wfB Graph.init Graph.keys fieldIds
+  simp [nodupB, entry]
+
+end
+
 end Sema.C10
